@@ -69,6 +69,10 @@ CHECKS["C05"] = ("E2-schedx", "model_checking",
   "Explicit-state model checking of the real scheduler: BFS over every delivery order of the scheduler's own messages and job bodies, on the real Scheduler/Stages/WorkerPool/Walker built by BuildParallelProcessor, with real tier2 jobs and real merges; 28 grid configurations (1-2 store stages x 2-3 segments x 1-2 workers x empty/complete cache; thorough: 3 stages x 4 segments, 3 workers), the configurations whose stores all start above the hand-off, and every cache state of two C07 universes (256 initial caches); safety in every state and on every transition, unique terminal outcome compared with the sequential reference, deadlock and livelock (backward reachability) detection.",
   "loop.EventLoop.Run is bypassed; asynchronous squasher writes are drained after each event; the partial-vs-full load race is decided by a store wrapper (full wins; thorough also partial wins); more than 2 identical pending wake-up messages are coalesced (cross-checked against the exact search with --cap 0).",
   "explicit-state BFS over the implementation's own transition function (stateful model checking on the real code, successors by replay)", "2.4 E2, 3/C05")
+CHECKS["C16"] = ("E3-sysrun", "fault_enumeration",
+  "Exhaustive enumeration of fault placements: every multiset of <=2 (thorough 3) transient faults over the (job, attempt) sites of a request x 4 fault kinds, and a deterministic module failure at every block in every module, both modes; jobs run through the real RemoteWorker (retry loop, classification) against the real tier2 processRange and the real error mappings of both tiers; streams compared with the fault-free run.",
+  "The gRPC transport is an in-process fake stream; goroutine timing inside a run is not controlled; back-off shortened by overlay.",
+  "exhaustive enumeration of fault sequences injected at the worker transport of the real implementation", "3/C16")
 PENDING = {}
 def main():
     checks = []
